@@ -21,7 +21,7 @@
 (* for detrending: the difference is a polynomial and the residual is      *)
 (* orthogonal to 1, t, .., t^k).                                           *)
 (***************************************************************************)
-EXTENDS Integrate, Intensity, Fourier, Filter
+EXTENDS Integrate, Intensity, Fourier, Filter, Spectra
 
 \* ---- what the reads must return -----------------------------------------------
 Npts(v) == Len(v)
@@ -56,6 +56,14 @@ ReadValueOK(v, h, e) ==
        [] w = "fas" -> e.k < FasBins(v) /\ CClose(e.val, FasBinOf(v, h, e.k), FMul(FMul(Rel, h), FAdd(FSumAbs(v), FStr("1e-300"))))
        [] w = "fas_freq" -> e.k < FasBins(v) /\ CloseRel(x, FasFreqOf(v, h, e.k), FStr("1e-12"), FAbs(x), Zero)
        [] OTHER -> FALSE
+
+\* ---- response spectra read lazily (default damping 0.05, min_dt_ratio 4) for period index k (0-based) of the period list rt
+DefaultXi == FStr("0.05")
+RtMin(rt) == IF FEq(rt[1], Zero) THEN rt[2] ELSE rt[1]
+ReadSpectrumOK(v, h, rt, k, sd, sa) ==
+  /\ k < Len(rt)
+  /\ (IF FEq(rt[k + 1], Zero) THEN FEq(sd, Zero) /\ FEq(sa, FMaxAbs(v))
+      ELSE ObjectSpectrumOK(v, h, DefaultXi, 4, RtMin(rt), rt[k + 1], sd, sa))
 
 \* ---- the operations -----------------------------------------------------------------
 AddConst(v, c) == [j \in 1..Len(v) |-> FAdd(v[j], c)]
